@@ -130,7 +130,7 @@ def storeTxn {σ : Type} (sem : StateSem σ) (c : Chain σ) (B : Bundle) : Excep
 /-- SWITCH (the model follows the code). `false`: `/repo` as it is — the new state backend's
 `Store` opens the state with `state.New(stateUpdate.OldRoot, …)`. `true`: with
 `proposed-fixes/C02-new-state-backend-old-root-unchecked.diff` it opens it at the head's stored root. -/
-def newBackendOpensAtHeadRoot : Bool := false
+def newBackendOpensAtHeadRoot : Bool := true
 
 /-- `state.New(root)` of the new backend (`trie2.New`): a ZERO root selects empty tries, any other
 root resolves the tries currently on disk (`cur`). -/
